@@ -67,9 +67,9 @@ def gen_case(rng, tier):
                              kmax=6, jmax=1, selfloops=False)
         labels = [v[0] for v in desc["vars"]]
         native = backend in ('f64', 'f32')
-        k = rng.randint(0, 6 if native else len(labels))
-        if native and rng.random() < 0.5:
-            tl = [rng.choice(labels) for _ in range(k)]          # labels may repeat
+        k = rng.randint(0, 6)
+        if rng.random() < 0.5:
+            tl = [rng.choice(labels) for _ in range(k)]          # labels may repeat (all back-ends)
         else:
             tl = rng.sample(labels, min(k, len(labels)))
         terms = [[l, small_int(rng)] for l in tl]
@@ -245,8 +245,7 @@ def run_eq(c):
     labs = [l for l, _ in c["terms"]]
     repeated = len({repr(l) for l in labs}) != len(labs)
     feats = {"kind": "eq", "backend": c["backend"], "vartype": c["vartype"]}
-    if fallback and repeated:
-        feats["eq_fallback_repeated_label"] = True
+    feats["repeated_label"] = repeated
     coq = (f"(mkEq {cnat(len(T))} {c['vartype']} {cbool(fallback)} {coq_lterms(c['terms'], T)} {cq(lam)} {cq(const)} "
            f"{coq_obs(before, T)} {coq_obs(after, T)})")
     py_fail = None
